@@ -714,6 +714,9 @@ def build_sprout(s: dict):
         gen = _sg.NBCGeneratorWithLocalMethod(g["df"], g["trunc"])
     dfs = []
     for f in s["dfilters"]:
+        if f["k"] == "userpure":
+            dfs.append(userdefs.PureCopyFilter())
+            continue
         if f["k"] == "far":
             dfs.append(_sf.FarEnough(f["d"], _ord(f["ord"])))
         elif f["k"] == "nbcfar":
@@ -722,7 +725,10 @@ def build_sprout(s: dict):
             dfs.append(_sf.DemeLimit(f["n"]))
     tfs = []
     for f in s["tfilters"]:
-        tfs.append(_sf.LevelLimit(f["n"]) if f["k"] == "levellimit" else _sf.SkipSameSprout())
+        if f["k"] == "userpure":
+            tfs.append(userdefs.PureCopyFilter())
+        else:
+            tfs.append(_sf.LevelLimit(f["n"]) if f["k"] == "levellimit" else _sf.SkipSameSprout())
     return SproutMechanism(gen, dfs, tfs)
 
 
@@ -740,6 +746,10 @@ def build_gsc(d: dict, ctx: Ctx):
             w = WeightingStrategy.EQUAL
         elif w == "root":
             w = WeightingStrategy.ROOT
+        if isinstance(w, list) and d.get("w_form") == "tuple":
+            w = tuple(w)
+        elif isinstance(w, list) and d.get("w_form") == "array":
+            w = np.array(w, dtype=float)
         return FitnessEvalLimitReached(d["n"], w) if "w" in d else FitnessEvalLimitReached(d["n"])
     if k == "precision":
         for o in ctx.stacks[0]:
